@@ -252,23 +252,35 @@ def scene_positions(sc, grng, n_extra=3, n_edge=2):
     return pos
 
 
+def touching_positions(cls, kw, base, ny, nx):
+    """four copies of the aperture at `base`, moved by whole pixels so that its bounding box is flush with the
+    left / right / bottom / top edge of the frame (footprint touches the first / last column or row)"""
+    b = cls(base, **kw).bbox
+    x, y = base
+    return [(x - b.ixmin, y), (x + nx - b.ixmax, y), (x, y - b.iymin), (x, y + ny - b.iymax)]
+
+
 def g_aperture_photometry(sc, T, R, grng):
     from photutils.aperture import aperture_photometry
     ny, nx = sc['ny'], sc['nx']
     d, e, m = sc['data'], sc['error'], sc['mask']
     D, E, M = scene_images(sc, T)
-    pos = scene_positions(sc, grng)
-    posT = [T.xy(x, y) for x, y in pos]
+    pos0 = scene_positions(sc, grng)
     exact = sc['dyadic'] and T.kind == 'shift'
     use_err = grng.random() < 0.8
     use_mask = grng.random() < 0.8
     for name, cls, kw in aperture_specs(grng):
         if sc['dyadic']:
             kw = {k: (round(v * 8) / 8 if k != 'theta' else v) for k, v in kw.items()}
+        base = (pos0[len(sc['srcs'])][0], pos0[len(sc['srcs']) + 1][1])       # an interior position
+        pos = pos0 + touching_positions(cls, kw, base, ny, nx)
+        posT = [T.xy(x, y) for x, y in pos]
         ap0 = cls(pos, **kw)
         ap1 = cls(posT, **t_kwargs(T, kw))
         inside = np.array([bbox_inside(b, ny, nx) for b in ap0.bbox])
         R.skip(name, 'bbox-not-inside-frame', int((~inside).sum()))
+        R.skip(name, '(not skipped) bbox flush with an edge', int(sum(
+            ins and (b.ixmin == 0 or b.iymin == 0 or b.ixmax == nx or b.iymax == ny) for b, ins in zip(ap0.bbox, inside))))
         # bounding boxes and masks move with the aperture
         for b0, b1, ins in zip(ap0.bbox, ap1.bbox, inside):
             if T.kind == 'shift':
@@ -528,13 +540,15 @@ def g_aperture_stats(sc, T, R, grng):
     ny, nx = sc['ny'], sc['nx']
     d, e, m = sc['data'], sc['error'], sc['mask']
     D, E, M = scene_images(sc, T)
-    pos = scene_positions(sc, grng, n_extra=2, n_edge=2)
-    posT = [T.xy(x, y) for x, y in pos]
+    pos0 = scene_positions(sc, grng, n_extra=2, n_edge=2)
     specs = aperture_specs(grng)
     grng.shuffle(specs)
     for name, cls, kw in specs[:3]:
         if sc['dyadic']:
             kw = {k: (round(v * 8) / 8 if k != 'theta' else v) for k, v in kw.items()}
+        base = (pos0[len(sc['srcs'])][0], pos0[len(sc['srcs']) + 1][1])
+        pos = pos0 + touching_positions(cls, kw, base, ny, nx)
+        posT = [T.xy(x, y) for x, y in pos]
         ap0, ap1 = cls(pos, **kw), cls(posT, **t_kwargs(T, kw))
         inside = np.array([bbox_inside(b, ny, nx) for b in ap0.bbox])
         R.skip('ApertureStats', 'bbox-not-inside-frame', int((~inside).sum()))
@@ -612,8 +626,8 @@ def g_find_peaks(sc, T, R, grng):
             R.ok('find_peaks', 'id unchanged', same(t1['id'], t0['id']), det)
         if cf is not None and t0 is not None and t1 is not None and p0.shape == p1s[keep].shape:
             hy, hx = ((box, box) if np.isscalar(box) else box) if fp is None else fp.shape
-            hy, hx = hy // 2 + 1, hx // 2 + 1
-            ins = (p0[:, 0] >= hx) & (p0[:, 0] < nx - hx) & (p0[:, 1] >= hy) & (p0[:, 1] < ny - hy)
+            hy, hx = hy // 2, hx // 2        # inclusive: the box may touch the first / last row or column
+            ins = (p0[:, 0] >= hx) & (p0[:, 0] <= nx - 1 - hx) & (p0[:, 1] >= hy) & (p0[:, 1] <= ny - 1 - hy)
             R.skip('find_peaks', 'centroid-box-not-inside-frame', int((~ins).sum()))
             xc0, yc0 = val(t0['x_centroid']), val(t0['y_centroid'])
             xc1, yc1 = val(t1['x_centroid'])[keep], val(t1['y_centroid'])[keep]
@@ -1026,30 +1040,48 @@ def g_source_catalog(sc, T, R, grng):
 #   footprint rule: the largest aperture (centre +- max radius, + 1 pixel) inside the original frame
 # ======================================================================================
 def g_profiles(sc, T, R, grng):
+    from photutils.aperture import CircularAperture
     from photutils.profiles import CurveOfGrowth, RadialProfile
     ny, nx = sc['ny'], sc['nx']
     d, e, m = sc['data'], sc['error'], sc['mask']
     D, E, M = scene_images(sc, T)
     exact = sc['dyadic'] and T.kind == 'shift'
-    cands = [(s['x0'] + grng.uniform(-0.6, 0.6), s['y0'] + grng.uniform(-0.6, 0.6)) for s in sc['srcs']]
-    cands += [(grng.uniform(0, nx - 1), grng.uniform(0, ny - 1))]
-    if sc['dyadic']:
-        cands = [(round(x * 8) / 8, round(y * 8) / 8) for x, y in cands]
-    for (x, y) in cands:
-        rmax = grng.choice([6.0, 9.0, 12.5])
-        if not (x - rmax - 1 >= -0.5 and x + rmax + 1 <= nx - 0.5 and y - rmax - 1 >= -0.5 and y + rmax + 1 <= ny - 0.5):
+    q = (lambda v: round(v * 8) / 8) if sc['dyadic'] else (lambda v: v)
+    cands = [(s['x0'] + grng.uniform(-0.6, 0.6), s['y0'] + grng.uniform(-0.6, 0.6), None) for s in sc['srcs']]
+    cands += [(grng.uniform(0, nx - 1), grng.uniform(0, ny - 1), None)]
+    # centres whose largest aperture TOUCHES the first / last row or column (bounding box flush with the edge)
+    cands += [(None, None, side) for side in ('left', 'right', 'bottom', 'top')]
+    for (x, y, side) in cands:
+        # non-round maximum radius: no pixel centre sits exactly at distance rmax (data_profile uses <=)
+        rmax = grng.choice([6.0, 9.0, 12.5]) if sc['dyadic'] else grng.choice([5.03, 6.17, 9.41, 12.53])
+        if side is not None:
+            u = grng.uniform(-0.45, 0.45)
+            x, y = grng.uniform(rmax + 1, nx - 2 - rmax), grng.uniform(rmax + 1, ny - 2 - rmax)
+            if side == 'left':
+                x = rmax + u
+            elif side == 'right':
+                x = nx - 1 - rmax + u
+            elif side == 'bottom':
+                y = rmax + u
+            else:
+                y = ny - 1 - rmax + u
+        x, y = q(x), q(y)
+        if not bbox_inside(CircularAperture((x, y), rmax).bbox, ny, nx):
             R.skip('profiles', 'largest-aperture-not-inside-frame')
             continue
+        if side is not None:
+            R.skip('profiles', f'(not skipped) largest aperture touches the {side} edge')
         nr = grng.randint(5, 12)
         edges = np.linspace(0.0, rmax, nr + 1) if grng.random() < 0.5 else np.sort(
-            np.array([0.0] + [grng.uniform(0.3, rmax) for _ in range(nr)]))
+            np.array([0.0, rmax] + [grng.uniform(0.3, rmax) for _ in range(nr - 1)]))
         if sc['dyadic']:
             edges = np.unique(np.round(edges * 8) / 8)
         method = grng.choice(['exact', 'exact', 'center', 'subpixel'])
         use_err, use_mask = grng.random() < 0.8, grng.random() < 0.7
         kw = dict(method=method, subpixels=grng.choice([3, 5]))
         xT, yT = T.xy(x, y)
-        det0 = {'xycen': (x, y), 'edge_radii': edges.tolist(), 'options': kw, 'error': use_err, 'mask': use_mask}
+        det0 = {'xycen': (x, y), 'edge_radii': edges.tolist(), 'options': kw, 'error': use_err, 'mask': use_mask,
+                'touches': side}
         rp0 = RadialProfile(d, (x, y), edges, error=e if use_err else None, mask=m if use_mask else None, **kw)
         rp1 = RadialProfile(D, (xT, yT), edges, error=E if use_err else None, mask=M if use_mask else None, **kw)
         names = ['radius', 'area', 'profile'] + (['profile_error'] if use_err else [])
@@ -1057,11 +1089,38 @@ def g_profiles(sc, T, R, grng):
             R.ok('RadialProfile', f'{nm} unchanged',
                  same(getattr(rp1, nm), getattr(rp0, nm), exact, rtol=RTOL if T.kind == 'shift' else 1e-9, atol=1e-12),
                  lambda nm=nm: dict(det0, property=nm, original=js(getattr(rp0, nm)), transformed=js(getattr(rp1, nm))))
+        # the raw data profile: the multiset of (radius, value) pairs of the pixels within the largest radius
+        yy, xx = np.mgrid[0:ny, 0:nx]
+        dist = np.hypot(xx - x, yy - y)
+        if np.min(np.abs(dist - edges.max())) < 1e-9:
+            R.skip('RadialProfile', 'pixel-exactly-at-the-largest-radius (data_profile tie not compared)')
+        else:
+            def pairs(rp):
+                r_, v_ = np.asarray(rp.data_radius, float), np.asarray(rp.data_profile, float)
+                o = np.lexsort((v_, r_))
+                return r_[o], v_[o]
+            (r0, v0), (r1, v1) = pairs(rp0), pairs(rp1)
+            # the mask is not applied to the raw profile, padding pixels lie outside the largest radius
+            n_in = int(np.count_nonzero(dist <= edges.max()))
+            dd = lambda: dict(det0, n_pixels_within_rmax=n_in, n_original=len(r0), n_transformed=len(r1),
+                              data_radius=js(r0), data_radius_transformed=js(r1))
+            R.ok('RadialProfile', 'data_radius/data_profile: one point per pixel within the largest radius',
+                 len(r0) == n_in and len(r1) == n_in, dd)
+            R.ok('RadialProfile', 'data_radius/data_profile: same multiset of (radius, value) pairs',
+                 len(r0) == len(r1) and bool(np.allclose(r1, r0, rtol=0, atol=1e-9))
+                 and bool(np.array_equal(np.sort(v1), np.sort(v0)))
+                 and bool(np.array_equal(v1, v0) or len(np.unique(np.round(r0, 7))) < len(r0)), dd)
         try:
+            g0, g1 = rp0.gaussian_fit, rp1.gaussian_fit
             f0, f1 = rp0.gaussian_fwhm, rp1.gaussian_fwhm
-            R.ok('RadialProfile', 'gaussian_fwhm unchanged', same(f1, f0, exact, rtol=1e-7, atol=1e-9),
-                 lambda: dict(det0, original=float(f0), transformed=float(f1)))
-        except Exception as exc:     # the fit itself is library numerics; it must fail on both sides or none
+            p0_, p1_ = np.array(g0.parameters), np.array(g1.parameters)
+            R.ok('RadialProfile', 'gaussian_fit parameters / gaussian_fwhm unchanged',
+                 same(f1, f0, exact, rtol=1e-7, atol=1e-9) and same(p1_, p0_, exact, rtol=1e-6, atol=1e-8),
+                 lambda: dict(det0, original=p0_.tolist(), transformed=p1_.tolist()))
+            R.ok('RadialProfile', 'gaussian_profile unchanged',
+                 same(rp1.gaussian_profile, rp0.gaussian_profile, exact, rtol=1e-6, atol=1e-8),
+                 lambda: dict(det0, original=js(rp0.gaussian_profile), transformed=js(rp1.gaussian_profile)))
+        except Exception:     # the fit itself is library numerics
             R.skip('RadialProfile', 'gaussian-fit-raised')
         radii = edges[1:] if edges[0] == 0 else edges
         cg0 = CurveOfGrowth(d, (x, y), radii, error=e if use_err else None, mask=m if use_mask else None, **kw)
@@ -1070,15 +1129,16 @@ def g_profiles(sc, T, R, grng):
             R.ok('CurveOfGrowth', f'{nm} unchanged',
                  same(getattr(cg1, nm), getattr(cg0, nm), exact, rtol=RTOL if T.kind == 'shift' else 1e-9, atol=1e-12),
                  lambda nm=nm: dict(det0, property=nm, original=js(getattr(cg0, nm)), transformed=js(getattr(cg1, nm))))
-        aps0, aps1 = rp0.apertures, rp1.apertures
-        good = True
-        for a, b in zip(aps0, aps1):
-            if a is None or b is None:
-                good &= (a is None) == (b is None)
-                continue
-            want = np.asarray(a.positions) + [T.dx, T.dy] if T.kind == 'shift' else np.asarray(a.positions)[::-1]
-            good &= bool(np.allclose(np.asarray(b.positions), want, rtol=0, atol=POS_TOL))
-        R.ok('RadialProfile', 'apertures centred on the moved xycen', good, det0)
+        for api, o0, o1 in (('RadialProfile', rp0, rp1), ('CurveOfGrowth', cg0, cg1)):
+            good = len(o0.apertures) == len(o1.apertures)
+            for a, b in zip(o0.apertures, o1.apertures):
+                if a is None or b is None:
+                    good &= (a is None) == (b is None)
+                    continue
+                want = np.asarray(a.positions) + [T.dx, T.dy] if T.kind == 'shift' else np.asarray(a.positions)[::-1]
+                good &= bool(np.allclose(np.asarray(b.positions), want, rtol=0, atol=POS_TOL))
+                good &= type(a) is type(b)
+            R.ok(api, 'apertures centred on the moved xycen', good, det0)
 
 
 # ======================================================================================
